@@ -18,6 +18,7 @@ _R16 = '_ZN8dispenso21ConcurrentObjectArenaINS_14MpmcRingBufferINS_12OnceFunctio
 _R4 = '_ZN8dispenso21ConcurrentObjectArenaINS_14MpmcRingBufferINS_12OnceFunctionELm4ELb1EEEmLm64EE7grow_byEm.4'
 _RESIZE = '_ZN8dispenso10ThreadPool12resizeLockedEl'
 _DTOR = '_ZN8dispenso10ThreadPoolD2Ev'
+_LOOP = '_ZN8dispenso10ThreadPool14threadLoopImplILb1EEEvRNS0_13PerThreadDataEi'
 SCN = {
     'ring_resize': (1, {}, 'TaskSet::scheduleBulk(N) ring fast path (task i in ring i); optional waiter steal '
                            '(tryExecuteNextFromRings); resize(n\' != N, n\' in 0..2 symbolic)'),
@@ -37,7 +38,7 @@ SCN = {
 
 def inst(kind, n, tiers, prop='VF_ACCT', end='', rt=9, choice=9):
     scn, extra, text = SCN[kind]
-    defs = {'VF_N': n, 'VF_SCN': scn, 'VF_MQ_CAP': 6, prop: 1}
+    defs = {'VF_N': n, 'VF_SCN': scn, 'VF_MQ_CAP': {1: 2, 2: 2, 3: 6, 4: 4, 5: 2}[scn], prop: 1}
     defs.update(extra)
     defs.update({'VF_RT': rt, 'VF_CHOICE': choice})
     sfx = ('_to%d' % rt if rt != 9 else '') + ('_c%d' % choice if choice != 9 else '')
@@ -49,17 +50,17 @@ def inst(kind, n, tiers, prop='VF_ACCT', end='', rt=9, choice=9):
                    '-DDISPENSO_TUNE_SPIN_CHECK_INTERVAL=1', '-DDISPENSO_TUNE_QUEUE_CHECK_INTERVAL=1',
                    '-DDISPENSO_DISABLE_CASCADE_WAKERANGE'],
         'unwind': 3, 'nthreads': 1, 'spin_loops': True, 'unwindset': {_R16: 17, _R4: 5},
-        'unwind_fn': {_RESIZE: 6, _DTOR: 6} if scn == 3 else ({_DTOR: 18} if scn == 5 else {}),
+        'unwind_fn': {_RESIZE: 6, _DTOR: 6} if scn == 3 else ({_DTOR: 18} if scn == 5 else ({_LOOP: 6} if scn == 4 else {})),
         'checks': ['--no-standard-checks', '--div-by-zero-check'],
-        'timeout': 1200, 'tiers': tiers,
-        'bounds': 'ThreadPool(%d), model queue capacity 6, steal-ring capacity 4; history: %s%s' % (n, text, end),
+        'timeout': 2700, 'tiers': tiers,
+        'bounds': 'ThreadPool(%d), model queue capacity %d, steal-ring capacity 4; history: %s%s' % (n, defs['VF_MQ_CAP'], text, end),
     }
 
 
 INSTANCES = [
     inst('ring_resize', 1, ['quick', 'thorough'], rt=0, choice=0),
-    inst('steal_resize', 1, ['quick', 'thorough'], rt=0),
-    inst('worker', 1, ['quick', 'thorough']),
+    inst('steal_resize', 1, ['thorough'], rt=0),
+    inst('worker', 1, ['thorough']),
     inst('ring_resize', 1, ['thorough']),
     inst('steal_resize', 1, ['thorough']),
     inst('steal_worker', 1, ['thorough']),
